@@ -78,6 +78,30 @@ int main(int argc, char **argv) {
             cp::PrintOpts po; po.dialect = cp::CIF2; po.booster = *g::chance(30); po.bom = *g::chance(10);
             CaseFile c; cp::PrintInfo info;
             if (!make_case(d, tp, po, c, info)) { count_excluded("unprintable"); RC_DISCARD("unprintable"); }
+            // 3%: one token longer than the scanner's whole buffer (131200 code units) -- a text field, a triple-quoted string, or a run of
+            // insignificant whitespace -- appended as a data block of its own; the items after it show whether the tail of the input survives
+            int huge = *rc::gen::weightedElement<int>({{97, 0}, {1, 1}, {1, 2}, {1, 3}});
+            if (huge) {
+                int nlines = *g::range(90, 220), base = *g::range(700, 1400); uint32_t r = (uint32_t) *g::range(0, 0x3fffffff);
+                ustr text; std::string body;
+                for (int i = 0; i < nlines; i++) {
+                    size_t len = (size_t) (base + (int) ((r >> (i % 20)) & 511));
+                    char ch = (char) ('a' + (i + (int) (r & 7)) % 26);
+                    if (i) { text += u'\n'; body += '\n'; }
+                    text += ustr(len, (char16_t) ch); body += std::string(len, ch);
+                }
+                cm::Container hb; hb.code = u"hugeblk"; cm::Loop sl; sl.has_cat = true;
+                std::string add = "\ndata_hugeblk\n_before_huge 1\n";
+                sl.names.push_back(u"_before_huge"); sl.rows.push_back({cm::Value::chr(u"1", false)});
+                if (huge == 1) { add += "_huge\n;" + body + "\n;\n"; sl.names.push_back(u"_huge"); sl.rows[0].push_back(cm::Value::chr(text, true)); label("huge:text-field"); }
+                else if (huge == 2) { add += "_huge \"\"\"" + body + "\"\"\"\n"; sl.names.push_back(u"_huge"); sl.rows[0].push_back(cm::Value::chr(text, true)); label("huge:triple-quoted"); }
+                else { std::string ws; for (int i = 0; i < nlines; i++) { ws += std::string((size_t) (base + (int) ((r >> (i % 20)) & 511)), i % 7 == 3 ? '\t' : ' '); ws += '\n'; } add += ws; label("huge:whitespace-run"); }
+                add += "_after_huge 2\n";
+                sl.names.push_back(u"_after_huge"); sl.rows[0].push_back(cm::Value::chr(u"2", false));
+                hb.loops.push_back(sl);
+                cm::Doc d2 = d; d2.blocks.push_back(hb);
+                c.set("bytes", c.get("bytes") + add); c.set("expected", cm::ser(d2)); c.set("doc", cm::ser_plain(d2));
+            }
             VH_BEGIN(c);
             classify_case(c, info, d);
             label("cif2");
